@@ -117,6 +117,15 @@ func Build(base string) (*Tree, error) {
 			}
 		}
 	}
+	// a second name for the origin Casketfile (a hard link, as deploy tools and
+	// editors leave them): same bytes, same token, so that content served under
+	// the alias is still attributed to the Casketfile
+	if cf := t.Files["Casketfile"]; cf != nil {
+		alias := "dir/alias-of-casketfile.conf"
+		if err := os.Link(filepath.Join(t.Root, "Casketfile"), filepath.Join(t.Root, filepath.FromSlash(alias))); err == nil {
+			t.Files[alias] = &File{Rel: alias, Token: cf.Token, Content: cf.Content}
+		}
+	}
 	return t, nil
 }
 
